@@ -113,6 +113,11 @@ func runC14One(l *Layout, choices string, profile string, del sim.Delivery, opts
 		return viol("medium/wrong-header/blockreader@"+loc, "BlockReader reports version %d roots %v; want %d %v", br.Version, br.Roots, wantV, l.Roots)
 	}
 	secs := l.Payload.Sections
+	type heldBlk struct {
+		i    int
+		data []byte
+	}
+	var held []heldBlk // blocks the caller keeps while it goes on iterating
 	choice := func(i int) byte {
 		if i < len(choices) {
 			return choices[i]
@@ -162,6 +167,7 @@ func runC14One(l *Layout, choices string, profile string, del sim.Delivery, opts
 			if !blk.Cid().Equals(secs[i].Cid) || !bytes.Equal(blk.RawData(), secs[i].Data) {
 				v = viol("medium/wrong-block/next@"+loc, "Next #%d returned block %s (%d bytes); want %s (%d bytes) (choices %q)", i, blk.Cid(), len(blk.RawData()), secs[i].Cid, secs[i].DataLen, choices)
 			}
+			held = append(held, heldBlk{i, blk.RawData()})
 		})
 		if pv != nil {
 			if be, ok := pv.(sim.BudgetExceeded); ok {
@@ -171,6 +177,11 @@ func runC14One(l *Layout, choices string, profile string, del sim.Delivery, opts
 		}
 		if v != nil {
 			return v
+		}
+	}
+	for _, hb := range held {
+		if !bytes.Equal(hb.data, secs[hb.i].Data) {
+			return viol("medium/wrong-block/held-result@"+loc, "the bytes of block #%d returned by Next changed while the iteration went on (choices %q)", hb.i, choices)
 		}
 	}
 	if l.Spec.V2 {
